@@ -64,7 +64,20 @@ THEOREMS = [
     "Jinns.LossTerms.obsTerm_closed_form",
     "Jinns.LossTerms.obsTerm_row_alignment",
     "Jinns.LossTerms.slice_apply_apply",
+    "Jinns.LossTerms.holdsC05_model_icODE",
+    "Jinns.LossTerms.holdsC05_model_icODE_pbatch",
+    "Jinns.LossTerms.holdsC05_model_icPDE",
+    "Jinns.LossTerms.holdsC05_model_normStatio",
+    "Jinns.LossTerms.holdsC05_model_normNonStatio",
+    "Jinns.LossTerms.holdsC05_model_obs",
+    "Jinns.LossTerms.holdsC05_model_ode",
+    "Jinns.LossTerms.holdsC05_model_ode_pbatch",
+    "Jinns.LossTerms.holdsC05_model_statio",
+    "Jinns.LossTerms.holdsC05_model_nonstatio",
+    "Jinns.LossTerms.holdsC05_model_statio_spinn",
+    "Jinns.LossTerms.holdsC05_model_nonstatio_spinn",
 ]
+LEAN_MODULES = ["JinnsProofs.C05", "JinnsProofs.C03C05Holds"]
 RULE = ("cases = (loss kind, dimension, network with 1..3 outputs reading theta, slice_solution, which of the three "
         "terms are configured and how, batch); non-trivial = at least one of the three terms is configured with a "
         "non-zero value and: for a normalisation term u is not constant on the samples (mean of squared deviations "
